@@ -135,7 +135,11 @@ def __setitem__(self, indx, arg):
         # Set pre-existing derivatives to zero
         for key, self_deriv in self._derivs_.items():
             if key not in arg._derivs_:
-                self.insert_deriv(key, self_deriv.zero(), override=True)
+                self.insert_deriv(key, self_deriv.zeros(self._shape_,
+                                                     numer=self_deriv._numer_,
+                                                     denom=self_deriv._denom_,
+                                                     mask=self._mask_),
+                                  override=True)
 
         # Insert new derivatives
         for key, arg_deriv in arg._derivs_.items():
